@@ -835,6 +835,70 @@ def out7(units, R):
     for fn in u.function_list:
         env = None
         cfg = None
+        # local character arrays that only ever receive the output of fully bounded sprintf formats (an index printed with %lu):
+        # the text in them, and in pointers that are only ever pointed at them, has a known largest length
+        if fn.body is not None:
+            arrays = {d_['d']: d_ for d_ in fn.locals() if u.ty(d_['ty'])['c'] == 'array'}
+            fills = {}
+            other_writes = set()
+            for c in fn.calls():
+                cn = callee_name(c)
+                if not c.get('args'):
+                    continue
+                base, _o = _ptr_split(c['args'][0])
+                if base.get('k') == 'ref' and base.get('d') in arrays:
+                    if cn == 'sprintf' and len(c['args']) >= 2 and strip_casts(c['args'][1]).get('k') == 'str' and not _o:
+                        tot = 0
+                        ai = 2
+                        for piece in parse_format(strip_casts(c['args'][1])['bytes']):
+                            if piece[0] == 'lit':
+                                tot += piece[1]
+                                continue
+                            arg = c['args'][ai] if ai < len(c['args']) else None
+                            ai += 1
+                            m = conv_max_len(piece, u, arg) if piece[1] != 's' else None
+                            if m is None:
+                                tot = None
+                                break
+                            tot += m
+                        if tot is None:
+                            other_writes.add(base['d'])
+                        else:
+                            fills.setdefault(base['d'], []).append((c, tot))
+                    elif cn in ('strcpy', 'strcat', 'memcpy', 'memset', 'strncpy', 'snprintf') or cn in u.functions:
+                        other_writes.add(base['d'])
+            for a_ in assignments(fn):
+                l_ = strip_casts(a_['l'])
+                if l_.get('k') in ('idx', 'un'):
+                    b_, _o2 = _ptr_split(l_['b'] if l_.get('k') == 'idx' else l_['e'])
+                    if b_.get('k') == 'ref' and b_.get('d') in arrays:
+                        other_writes.add(b_['d'])
+            for bd, fl in fills.items():
+                if bd in other_writes:
+                    continue
+                mx = max(t_ for (_c, t_) in fl)
+                cap = u.ty(arrays[bd]['ty']).get('count')
+                for (c_, t_) in fl:
+                    nsites += 1
+                    okf = cap is not None and t_ + 1 <= cap
+                    R.ob('OUT7', fn, c_, '%s fits the local array %s' % (expr_str(c_)[:50], arrays[bd]['n']), okf,
+                         'at most %d characters and the terminator into %s bytes' % (t_, cap), key='arr:%s' % arrays[bd]['n'])
+                _UB['strlen(%s)' % arrays[bd]['n']] = mx
+                # pointers that only ever point at the array (or are NULL)
+                pdefs = {}
+                for a_ in assignments(fn):
+                    if is_ref(a_['l']):
+                        pdefs.setdefault(strip_casts(a_['l'])['d'], []).append(a_['r'] if a_['op'] == '=' else None)
+                for d_ in fn.locals():
+                    if 'init' in d_:
+                        pdefs.setdefault(d_['d'], []).append(d_['init'])
+                for pd_, rs_ in pdefs.items():
+                    if pd_ in arrays or not rs_:
+                        continue
+                    if all(r_ is not None and (is_null_const(r_) or (strip_casts(r_).get('k') == 'ref' and strip_casts(r_).get('d') == bd)) for r_ in rs_):
+                        nm = [d_['n'] for d_ in fn.locals() if d_['d'] == pd_]
+                        if nm:
+                            _UB['strlen(%s)' % nm[0]] = mx
         for d in fn.locals():
             if 'init' not in d:
                 continue
